@@ -231,6 +231,12 @@ func (f *Frame) havocHeaps(st *State, mods map[string]bool) {
 		if k == "*nonghost" {
 			continue
 		}
+		if strings.HasPrefix(k, "new:") {
+			if !mods[k[4:]] {
+				un.havocFresh(st, k[4:])
+			}
+			continue
+		}
 		s, ok := un.heapSort[k]
 		if !ok {
 			s, ok = un.eng.heapSortHint[k]
@@ -246,6 +252,8 @@ func (f *Frame) havocHeaps(st *State, mods map[string]bool) {
 func (f *Frame) bumpNext(st *State) {
 	un := f.un
 	old := un.H(st, "$next", SInt)
+	un.heapSort["$limit"] = SInt
+	st.H["$limit"] = old // what existed before the call
 	nn := un.fresh("next", SInt)
 	un.setH(st, "$next", nn)
 	un.assume(st, Ge(nn, old))
@@ -288,6 +296,13 @@ func (f *Frame) contractEnv(ct *Contract, fn *ssa.Function, args []Val, bind []V
 				env[p.Name] = args[i]
 			}
 		}
+	} else if len(ct.Params) == len(args)-1 && fn != nil && fn.Signature.Recv() != nil {
+		// header without the receiver
+		for i, p := range ct.Params {
+			if _, dup := env[p.Name]; !dup {
+				env[p.Name] = args[i+1]
+			}
+		}
 	} else if fn == nil || len(fn.Params) == 0 {
 		if len(args) > 0 {
 			f.fail("contract %s declares %d parameters, call has %d", ct.Name, len(ct.Params), len(args))
@@ -328,7 +343,12 @@ func (f *Frame) applyContract(ct *Contract, fn *ssa.Function, sig *types.Signatu
 						senv[k] = v
 					}
 				}
-				for k, v := range f.contractEnv(sc, fn, args, bind, st) {
+				// only the names written in the callsite header denote the callee's arguments
+				var hfn *ssa.Function
+				if fn != nil && fn.Signature.Recv() != nil && len(sc.Params) == len(args)-1 {
+					hfn = fn
+				}
+				for k, v := range f.headerEnv(sc, hfn, args) {
 					senv[k] = v
 				}
 				for _, rq := range sc.Requires {
@@ -869,4 +889,20 @@ func (f *Frame) copyBuiltin(c *ssa.CallCommon, args []Val, st *State) Val {
 	un.assume(st, Forall([]Term{i}, Eq(Select(rowN, i), Ite(And(Le(offd, i), Lt(i, Add(offd, n))), srcAt(Sub(i, offd)), Select(rowD, i))), Select(rowN, i)))
 	un.setH(st, hn, Ite(Gt(n, IntLit(0)), Store(h, SBase(d), rowN), h))
 	return Val{T: n, Go: types.Typ[types.Int]}
+}
+
+// headerEnv binds the parameter names written in a contract header to the call's arguments.
+func (f *Frame) headerEnv(ct *Contract, fnWithRecv *ssa.Function, args []Val) map[string]Val {
+	env := map[string]Val{}
+	off := 0
+	if fnWithRecv != nil {
+		off = 1
+	}
+	if len(ct.Params) != len(args)-off {
+		f.fail("callsite %s -> %s: header names %d parameters, call passes %d", ct.Caller, ct.Name, len(ct.Params), len(args)-off)
+	}
+	for i, p := range ct.Params {
+		env[p.Name] = args[i+off]
+	}
+	return env
 }
